@@ -437,7 +437,60 @@ def gen_twice(ctx):
 
 
 # ---------------------------------------------------------------- child
-def run_impl(ctx, cfg_files, hs, rts, pool, keycases=(), twice=()):
+def gen_fhistories(ctx, cfg):
+    """histories in which read_directory is called with every combination of read_mesh_only /
+    read_npy / save (FlagModel.v): all [a; b; default read] over an alphabet, plus random ones"""
+    r = ctx.rng
+    thorough = ctx.tier == 'thorough'
+    A, B = N_SRC, N_SRC + 1
+    n_full = len(cfg['steps_full']) + 8 if cfg else 16
+    reads = [['RF', m, npy, sv] for m in (0, 1) for npy in (0, 1) for sv in (0, 1)]
+    if thorough:
+        ks = list(range(0, n_full))
+        sigma = reads + [['S', A, 0], ['S', B, 1]] + [['SC', A, 0, k] for k in ks[1::2]] + \
+            [['RFC', 0, 0, 1, k] for k in ks[1::2]] + [['RFC', 0, 1, 1, k] for k in ks[1::3]]
+    else:
+        k1, k2 = sorted(r.sample(range(1, 10), 2))
+        sigma = [x for x in reads if not (x[1] and not x[3])] + \
+            [['S', A, 0], ['S', B, 1], ['SC', A, 0, k1], ['RFC', 0, 0, 1, k2]]
+    hs = []
+    for a in sigma:
+        for b in sigma:
+            hs.append({'src': 0, 'ops': [a, b, ['RF', 0, 1, 1]], 'kind': 'flags-exhaustive-3'})
+    for _ in range(400 if thorough else 40):
+        ops = []
+        for _i in range(r.randint(3, 6)):
+            x = r.random()
+            if x < 0.55:
+                ops.append(['RF', int(r.random() < 0.25), int(r.random() < 0.6), int(r.random() < 0.6)])
+            elif x < 0.7:
+                ops.append(['S', r.choice([A, B]), int(r.random() < 0.25)])
+            elif x < 0.85:
+                ops.append(['SC', r.choice([A, B]), int(r.random() < 0.2), r.randrange(n_full)])
+            else:
+                ops.append(['RFC', int(r.random() < 0.2), int(r.random() < 0.5), 1, r.randrange(n_full)])
+        ops.append(['RF', int(r.random() < 0.2), 1, int(r.random() < 0.7)])
+        hs.append({'src': r.randrange(N_SRC), 'ops': ops, 'kind': 'flags-random'})
+    for i, h in enumerate(hs):
+        h['id'] = 100000 + i
+    return hs
+
+
+def fop_coq(op):
+    b = lambda x: 'true' if x else 'false'  # noqa: E731
+    k = op[0]
+    if k == 'RF':
+        return f'(FRead {b(op[1])} {b(op[2])} {b(op[3])})'
+    if k == 'RFC':
+        return f'(FReadCrash {b(op[1])} {b(op[2])} {b(op[3])} {op[4]})'
+    if k == 'S':
+        return f'(FSave o{op[1]} {b(op[2])})'
+    if k == 'SC':
+        return f'(FSaveCrash o{op[1]} {b(op[2])} {op[3]})'
+    raise AssertionError(op)
+
+
+def run_impl(ctx, cfg_files, hs, rts, pool, keycases=(), twice=(), fhs=()):
     work = ctx.scratch / 'work'
     if work.exists():
         import shutil
@@ -445,7 +498,8 @@ def run_impl(ctx, cfg_files, hs, rts, pool, keycases=(), twice=()):
     work.mkdir(parents=True, exist_ok=True)
     spec = {'work': str(work), 'out': str(ctx.scratch / 'impl_out.json'), 'files': cfg_files,
             'sources': [{'ftype': ft, 'path': str(SRC_DIR / nm)} for ft, nm in SOURCES],
-            'pool': pool, 'histories': hs, 'roundtrips': rts, 'keycases': list(keycases), 'twice': list(twice)}
+            'pool': pool, 'histories': hs, 'roundtrips': rts, 'keycases': list(keycases), 'twice': list(twice),
+            'fhistories': list(fhs)}
     r = subprocess.run([lib.PY, str(lib.VERIF / 'harness' / 'c05_impl.py')],
                        input=json.dumps(spec), text=True, capture_output=True,
                        env=lib.impl_env(), timeout=1500)
@@ -525,7 +579,8 @@ def main(ctx):
     ctx.assumptions += [
         'np.savez is atomic at file granularity (the property\'s crash points are file boundaries)',
         'the directory holds no foreign file with the stem of a cache file (femio_x.npy next to femio_x.npz)',
-        'read_directory is called with its default read_npy=True, save=True, read_mesh_only=False',
+        'read_directory options: read_mesh_only / read_npy / save are part of the histories (FlagModel, '
+        'C05_crash_safe_flags); recursive / read_res / stem / time_series do not touch the cache logic',
         'payloads are opaque content identities; exactness of np.savez/np.load is pinned by the '
         'round-trip stream, not proved',
     ]
@@ -581,7 +636,7 @@ def main(ctx):
         run_v = ['(* GENERATED by harness/c05.py on every run - do not edit.  Per-run theorems about the',
                  '   configuration translated from the tree under test (gen/SaveCfg.v). *)',
                  'From Coq Require Import String List ZArith. Import ListNotations.',
-                 'From FV.C05 Require Import Model Proofs Props.',
+                 'From FV.C05 Require Import Model Proofs Props FlagModel PropsFlags.',
                  'From FV.C05.gen Require Import SaveCfg.', '']
         if cfg_ok:
             run_v += [
@@ -607,7 +662,13 @@ def main(ctx):
                 '  forall src dr0, wf_snap src = true -> has (read_sentinel SaveCfg.cfg) dr0 = false ->',
                 '  map fst (run (with_order SaveCfg.cfg ord) src [Read true; Read false; Read false; Read true] dr0)',
                 '  = [RParsed; RParsed; RLoaded (Some src); RLoaded (Some (img src true))].',
-                'Proof. intros ord OO. exact (C05_mesh_read_then_full_read (with_order SaveCfg.cfg ord) C05_run_cfg_ok OO). Qed.', '']
+                'Proof. intros ord OO. exact (C05_mesh_read_then_full_read (with_order SaveCfg.cfg ord) C05_run_cfg_ok OO). Qed.', '',
+                '(* ... with read_directory called with any read_mesh_only / read_npy / save *)',
+                'Theorem C05_run_crash_safe_flags : forall ord, order_ok ord ->',
+                '  forall src h dr0, wf_snap src = true -> forallb wf_fop h = true ->',
+                '  has (read_sentinel SaveCfg.cfg) dr0 = false ->',
+                '  fconforms (with_order SaveCfg.cfg ord) src h dr0 = true.',
+                'Proof. intros ord OO. exact (C05_crash_safe_flags (with_order SaveCfg.cfg ord) C05_run_cfg_ok OO). Qed.', '']
         else:
             run_v += [
                 '(* the static check rejects the translated configuration, and the model',
@@ -733,7 +794,8 @@ def main(ctx):
     # generic theorems (independent of the tree under test), then the per-run ones
     ok1, log1 = ctx.build_props('C05/Props.v')
     ok1v, log1v = ctx.build_props('C05/PropsVal.v')
-    ok1, log1 = ok1 and ok1v, log1 + log1v
+    ok1f, log1f = ctx.build_props('C05/PropsFlags.v')
+    ok1, log1 = ok1 and ok1v and ok1f, log1 + log1v + log1f
     if tie_ok and cfg_ok is not None:
         ok2, log2 = ctx.build_props('C05/gen/Run.v')
     else:
@@ -755,13 +817,13 @@ def main(ctx):
     ctx.notes['property_proved_for_this_tree'] = {
         'crash_safe/save_then_read/cache_transparent': bool(cfg_ok) and proof_ok,
         'dict_roundtrip (key scheme)': bool(kcfg_ok) and kproof_ok}
-    ctx.checker_cmd = ('cd /verif/coq && make C05/Props.vo C05/PropsVal.vo C05/gen/Run.vo C05/gen/RunKeys.vo '
-                       '(coqc 8.16.1) + Print Assumptions of every theorem of these four files')
+    ctx.checker_cmd = ('cd /verif/coq && make C05/Props.vo C05/PropsVal.vo C05/PropsFlags.vo C05/gen/Run.vo '
+                       'C05/gen/RunKeys.vo (coqc 8.16.1) + Print Assumptions of every theorem of these five files')
     if not (proof_ok and kproof_ok):
         ctx.notes['build_log_tail'] = (log1 + log2 + log3)[-1500:]
     if ctx.tier == 'thorough' and proof_ok and kproof_ok:
         rc, o, e, dt = lib.sh(['coqchk', '-silent', '-o', '-Q', '.', 'FV', 'FV.C05.Props', 'FV.C05.PropsVal',
-                               'FV.C05.gen.Run', 'FV.C05.gen.RunKeys'], cwd=lib.COQ, timeout=900)
+                               'FV.C05.PropsFlags', 'FV.C05.gen.Run', 'FV.C05.gen.RunKeys'], cwd=lib.COQ, timeout=900)
         ctx.notes['coqchk'] = {'exit': rc, 'seconds': round(dt, 1),
                                'axioms_none': 'Axioms: <none>' in (o + e)}
         ctx.log(f'coqchk exit {rc} ({dt:.0f}s)')
@@ -800,7 +862,8 @@ def main(ctx):
     kcs = gen_keycases(ctx, types, widen='keys' in degraded or key_incomplete)
     ctx.log(f'{len(hs)} histories, {len(rts)} round trips, {len(kcs)} key-scheme cases')
     tws = gen_twice(ctx)
-    out = run_impl(ctx, files, hs, rts, pool, kcs, tws)
+    fhs = gen_fhistories(ctx, cfg) if cfg else []
+    out = run_impl(ctx, files, hs, rts, pool, kcs, tws, fhs)
     snaps = out['snaps']
     ctx.notes['member_classes_observed'] = out['classes']
     if cfg and {m: out['classes'][m] for m in cfg['classes']} != cfg['classes']:
@@ -955,6 +1018,100 @@ def main(ctx):
                                      'outcome': 'raises' if r.get('exc') else 'differs'},
                           what=f"round trip of an object with feature {rt['feature']}: {r.get('exc') or r.get('diff')}") else 1
     ctx.notes['roundtrip_failures'] = n_rt_bad
+
+    # ---- 6b. histories with read_directory's read_npy / save options (FlagModel.v): Model vs femio
+    #          (fagree) and the specification on femio's results (foracle), evaluated in Coq
+    fres = {x['id']: x for x in out.get('fhistories', [])}
+    flines, f_err = [], []
+    for h in fhs:
+        steps = fres[h['id']]['steps']
+        obs, bad = [], None
+        for op, s_ in zip(h['ops'], steps):
+            rc_ = result_coq(s_['res'])
+            if rc_ is None:
+                bad = s_['res']
+                break
+            exp_parse = snaps[h['src']] if not (op[0] in ('RF', 'RFC') and op[1]) else \
+                snaps[h['src']][:2] + [None] * 4
+            if s_['res'][0] == 'P' and s_['res'][1] is not None and s_['res'][1] != exp_parse:
+                bad = ['parse-not-deterministic', s_['res'][1], exp_parse]
+                break
+            ls = '[' + '; '.join(f'({lib.coq_str(k)}, {content_coq(v)})' for k, v in sorted(s_['ls'].items())) + ']'
+            obs.append(f'({rc_}, {ls})')
+        if bad is not None:
+            f_err.append((h['id'], bad))
+            continue
+        flines.append((h['id'] - 100000, f'o{h["src"]}', '[' + '; '.join(fop_coq(o) for o in h['ops']) + ']',
+                       '[' + '; '.join(obs) + ']'))
+        ctx.count('kind:' + h['kind'])
+        ctx.case(['flags', h['src'], h['ops']], nontrivial=True)
+    fdis, fvio = [], []
+    if flines:
+        def feval(c0):
+            chunk = flines[c0:c0 + CH]
+            txt = list(HEADER) if model_ok else [x for x in HEADER if 'SaveCfg' not in x]
+            txt += ['From FV.C05 Require Import FlagModel.'] + defs
+            if model_ok:
+                txt.append('Definition corr : list (nat * option nat) := [')
+                txt.append(';\n'.join(f'({i}, fagree cfg {s_} {h_} {o_})' for i, s_, h_, o_ in chunk) + '].')
+            txt.append('Definition orac : list (nat * option nat) := [')
+            txt.append(';\n'.join(f'({i}, foracle {s_} {h_} {o_})' for i, s_, h_, o_ in chunk) + '].')
+            sel = 'filter (fun c => match snd c with Some _ => true | None => false end)'
+            if model_ok:
+                txt += ['Goal True. idtac "@@ disagree". Abort.', f'Eval vm_compute in {sel} corr.']
+            txt += ['Goal True. idtac "@@ violating". Abort.', f'Eval vm_compute in {sel} orac.']
+            return ctx.coq_eval(f'CorrFlags{c0 // CH}', '\n'.join(txt) + '\n', timeout=900)
+        with ThreadPoolExecutor(max_workers=6) as ex:
+            fresults = list(ex.map(feval, range(0, len(flines), CH)))
+        for rc, o, e in fresults:
+            if rc != 0:
+                ctx.log('flag correspondence file failed to compile', e[-800:])
+                f_err.append((-1, 'CorrFlags file: ' + e[-300:]))
+                continue
+            parts = lib.parse_marked(o)
+            fdis += [(int(a), int(b)) for a, b in pair.findall(parts.get('disagree', '').split(' : ')[0])]
+            fvio += [(int(a), int(b)) for a, b in pair.findall(parts.get('violating', '').split(' : ')[0])]
+    ctx.corr['flag_histories'] = len(flines)
+    ctx.corr['flag_disagreements'] = len(fdis)
+    ctx.corr['disagreements'] += len(fdis)
+    ctx.notes['flag_impl_property_failures'] = len(fvio)
+    ctx.log(f'read options: {len(flines)} histories in Coq, {len(fdis)} disagreements, {len(fvio)} violating')
+    fby = {h['id'] - 100000: h for h in fhs}
+    fres = {k - 100000: v for k, v in fres.items()}
+    seen_f = set()
+    for hid, i in fvio:
+        h = fby[hid]
+        steps = fres[hid]['steps']
+        op = h['ops'][i]
+        sig = {'site': 'FEMData.read_directory', 'options': {'read_mesh_only': op[1], 'read_npy': op[2],
+                                                              'save': op[3]},
+               'returned': steps[i]['res'][0]}
+        key = json.dumps(sig, sort_keys=True)
+        if key in seen_f:
+            continue
+        seen_f.add(key)
+        ctx.violation('impl-violation',
+                      {'source': SOURCES[h['src']][1], 'src': h['src'], 'flag_ops': h['ops'][:i + 1], 'pool': pool},
+                      'a read with read_npy=True parses or loads the image of a completely saved data set; '
+                      'a read with read_npy=False parses (FlagModel.fspec_step)',
+                      {'violating_op_index': i, 'result': steps[i]['res'],
+                       'listing_before_read': steps[i - 1]['ls'] if i > 0 else {}},
+                      'C05_crash_safe_flags / oracle FlagModel.fspec_run on the implementation',
+                      found_input=True, signature=sig,
+                      what=f"read_directory with options {sig['options']} returned {steps[i]['res'][0]}")
+    for hid, i in fdis[:3]:
+        h = fby[hid]
+        steps = fres[hid]['steps']
+        ctx.violation('correspondence', {'source': SOURCES[h['src']][1], 'src': h['src'], 'flag_ops': h['ops'][:i + 1]},
+                      'FlagModel.frun reproduces read results and femio_* listing after every op',
+                      {'first_difference_at_op': i, 'impl_result': steps[i]['res'], 'impl_listing': steps[i]['ls']},
+                      'correspondence C05 (FlagModel.fagree)', found_input=False,
+                      signature={'kind': 'flag-correspondence', 'op': h['ops'][i][:4]},
+                      what='implementation run with read options not reproduced by the model')
+    for hid, bad in f_err[:2]:
+        ctx.violation('correspondence', {'flag_history': fby[hid - 100000]['ops'] if hid - 100000 in fby else None},
+                      'every op returns a classifiable result', bad, 'harness C05 (read options)',
+                      found_input=False, signature={'kind': 'flag-harness-error'})
 
     # ---- 7c. value-level model (ValModel.comp_dict): for every saved object, the keys of every cache
     #          file (np.load(...).files, in order) against the model's dictionaries of a tagged object
@@ -1278,6 +1435,27 @@ def replay(path):
         print('first op at which model and implementation differ:', parts.get('first-difference', '').strip())
         v = parts.get('property-violated-at-op', '').strip()
         print('property (Model.spec_run on the implementation results) violated at op:', v)
+        bad = 'Some' in v
+        print('property', 'VIOLATED' if bad else 'holds', 'on this input')
+        return 1 if bad else 0
+    if 'flag_ops' in c:
+        fh = [{'id': 100000, 'src': c['src'], 'ops': c['flag_ops'], 'kind': 'replay'}]
+        out = run_impl(ctx, files, [], [], c['pool'], fhs=fh)
+        steps = out['fhistories'][0]['steps']
+        for o, s_ in zip(c['flag_ops'], steps):
+            print('op', o, '->', s_['res'], 'died' if s_['died'] else '', s_['ls'])
+        obs = []
+        for s_ in steps:
+            ls = '[' + '; '.join(f'({lib.coq_str(k)}, {content_coq(v)})' for k, v in sorted(s_['ls'].items())) + ']'
+            obs.append(f'({result_coq(s_["res"]) or "RNone"}, {ls})')
+        hist = '[' + '; '.join(fop_coq(o) for o in c['flag_ops']) + ']'
+        txt = [x for x in HEADER if 'SaveCfg' not in x] + ['From FV.C05 Require Import FlagModel.'] + \
+            [f'Definition o{j} : snap := {snap_coq(sn)}.' for j, sn in enumerate(out['snaps'])] + \
+            ['Goal True. idtac "@@ property-violated-at-op". Abort.',
+             f'Eval vm_compute in foracle o{c["src"]} {hist} [{"; ".join(obs)}].']
+        rc, o, e = ctx.coq_eval('ReplayFlags', '\n'.join(txt) + '\n')
+        v = lib.parse_marked(o).get('property-violated-at-op', e[-300:]).strip()
+        print('property (FlagModel.fspec_run on the implementation results) violated at op:', v)
         bad = 'Some' in v
         print('property', 'VIOLATED' if bad else 'holds', 'on this input')
         return 1 if bad else 0
